@@ -152,6 +152,12 @@ def main(argv=None):
             for r in pool.imap_unordered(_worker, [(modname, c) for c in cases],
                                          chunksize=1):
                 results.append(r)
+    # a sensitivity twin whose refuting query timed out under load (all
+    # cores busy) is re-run once alone before it is reported as undetected
+    byname = {c.get('name'): c for c in cases}
+    for i, r in enumerate(results):
+        if r.get('twin') and 'error' not in r and not r.get('findings'):
+            results[i] = _worker((modname, byname[r['case']]))
     results.sort(key=lambda r: str(r.get('case')))
 
     from .sym import Stats
